@@ -155,3 +155,41 @@ def price(p):
   """protocol price -> float / array."""
   np = _np()
   return np.array(jf(p), dtype=float) if isinstance(p, list) else pf(p)
+
+
+def build_ucons(ucons):
+  np = _np()
+  out = []
+  for u in ucons:
+    w = np.array([pf(x) for x in u['w']]); c = pf(u['c'])
+    con = {'type': u['type'], 'fun': (lambda x, w=w, c=c: float(np.array(x).reshape(-1).dot(w) + c))}
+    if u.get('jac', True):
+      con['jac'] = (lambda x, w=w: w.copy())
+    out.append(con)
+  return out
+
+
+def build_block_device(d, id):
+  if d['cls'] == 'ADevice' and 'ucons' in d:
+    d = dict(d); d['_constraints'] = build_ucons(d['ucons'])
+  return build_leaf(d, id)
+
+
+def build_tree(t):
+  np = _np()
+  dk = repo()
+  if t['k'] == 'leaf':
+    return build_block_device(t['dev'], t['id'])
+  if t['k'] == 'mf':
+    dev = build_block_device(t['dev'], t['id'])
+    if t.get('ratios'):
+      return dk.TwoRatioMFDeviceSet(dev, list(t['flows']), [pf(x) for x in t['ratios']], t.get('ctype', 'eq'))
+    return dk.MFDeviceSet(dev, list(t['flows']))
+  kids = [build_tree(c) for c in t['ch']]
+  sb = None
+  if t.get('sb') is not None:
+    sb = np.array([[pf(a), pf(b)] for a, b in t['sb']])
+  if t.get('sub'):
+    return dk.SubBalancedDeviceSet(t['id'], kids, sb, labels=list(t.get('labels', [])), constraint_type=t.get('ctype', 'eq'),
+                                   sign=pf(t.get('sign', '1')), apply_to_remaining=bool(t.get('rem', False)))
+  return dk.DeviceSet(t['id'], kids, sb)
